@@ -101,8 +101,11 @@ def run(ctx, rep, tier):
                 if unknown:
                     report(B, rep, "placeholder-in-program", sx.replace("@", sexprs[i]), vocab[i], known, want=unknown[0])
         samples.append(dict(shape=sname, vocabulary=len(vocab), outcomes=len(r.alts), programs_read_back=n_prog, seconds=round(time.time() - t0, 2)))
+    n_pay = payload_level(B, rep, tier, samples)
     n_fmt = format_level(B, rep, tier, samples)
     cov = B.coverage_common()
+    cov["payload_level"] = dict(obligations=n_pay, explanation="every unsupported test / action that carries a string, compiled with a payload of "
+                                "k arbitrary code points (quick k = 3, 6; thorough k = 1..8): z3 decides that no payload value makes compilation succeed")
     cov["format_level"] = dict(obligations=n_fmt, explanation="compile executed on -printf / -fprintf actions whose format is a list of 1..3 "
                                "symbolic elements over {literal, supported directive, two unsupported directives, newline escape, \\c escape}; "
                                "z3 decides Err <=> some element is an unsupported directive, at every position (also after \\c)")
@@ -114,6 +117,41 @@ def run(ctx, rep, tier):
                outside="two or more unsupported constructs in one tree (first one wins; not asserted which)",
                evaluations=len(rep.queries), distinct_nontrivial=len(rep.queries))
     rep.coverage = cov
+
+
+UNSUPPORTED_WITH_STRING = [("Test", v) for v in ("AccessNewer", "ChangeNewer", "ModifyNewer", "FsType", "Group", "InsensitiveLinkName", "InsensitiveRegex",
+                                                  "LinkName", "Regex", "Samefile", "User")] + [("Action", "FileList")]
+
+
+def payload_level(B, rep, tier, samples):
+    """an unsupported construct is refused whatever its argument says"""
+    P = B.engine("dev").P
+    n_ob = 0
+    for cat, variant in UNSUPPORTED_WITH_STRING:
+        if variant not in P.enum_variants.get(cat, []):
+            rep.inconclusive.append("%s::%s is not a variant of the current source: the table of unsupported constructs needs review" % (cat, variant))
+            continue
+        for k in ((3, 6) if tier == "quick" else range(1, 9)):
+            cs = [sym_char() for _ in range(k)]
+            tree = Adt("Expression", cat, [Adt(cat, variant, [StringV(cs)])])
+            r = compile_tree(B, tree)
+            notrefused = b_or(*[g for g, v in r.alts if not is_err(v)])
+            res, m = B.solve("payload:%s[%d]" % (variant, k), [char_valid(c) for c in cs] + list(r.assume), notrefused)
+            n_ob += 1
+            if res == z3.sat:
+                text = "".join(chr(model_char(m, c)) for c in cs)
+                kw = [k_ for k_, v_ in __import__("spec.vocab", fromlist=["VOCAB"]).VOCAB.items() if v_[1] == variant]
+                sx = None
+                if kw and all(ch not in text for ch in "'\\ ") and text.isprintable():
+                    sx = "(s \"%s '%s'\")" % (kw[0], text)
+                d = B.ctx.run_native_trees([sx])[0] if sx else {}
+                if sx and d.get("compile") == "err":
+                    rep.inconclusive.append("payload witness %s does not reproduce natively" % sx)
+                    continue
+                rep.violation("unsupported:payload", "%s::%s(%r): compile gives %s although the construct is unsupported" % (cat, variant, text, d.get("compile", "a program (model)")),
+                              dict(sexpr=sx, variant=variant, payload=text, native=d))
+        samples.append(dict(shape="payload:%s" % variant))
+    return n_ob
 
 
 FMT_ALPHABET = [("lit", lambda tag: Adt("FormatElement", "Literal", [StringV([ord("a")])]), '(lit "a")', False),
